@@ -61,6 +61,18 @@ Theorem C15_obp_table : forall (old : pal) (v : N), v < 256 -> c0 old < 4 ->
 Proof. exact write_obp_spec. Qed.
 Print Assumptions C15_obp_table.
 
+(* For the system model (OAM corruption, C17): every address renderPixel passes to OAM.PPURead lies in FE00-FE9F,
+   and the address left in OAM.ppuLastAccess is the last of that sequence. *)
+Theorem C15_reads_in_oam : forall (s : scene) (ov : list bool) (x y : N) (rs : list N),
+  render_pixel_oam_reads s ov x y = Ok rs -> Forall (fun a => 65024 <= a < 65184) rs.
+Proof. exact render_pixel_oam_reads_range. Qed.
+Print Assumptions C15_reads_in_oam.
+
+Theorem C15_last_access : forall (s : scene) (ov : list bool) (x y : N),
+  render_pixel_last_access s ov x y = (do rs <- render_pixel_oam_reads s ov x y; Ok (hd_error (rev rs))).
+Proof. exact last_access_is_last. Qed.
+Print Assumptions C15_last_access.
+
 (* Frames.  [trace] stands for the sequence of renderer calls (Scan = checkOverlappingSprite, Draw = renderPixel)
    that the PPU's tick function issues during one frame on a constant scene.  The full statement: that sequence
    leaves the composition in every pixel of the frame.  The timing model that produces the sequence belongs to
